@@ -176,6 +176,17 @@ def kwarg(call, name, default=None):
     return default
 
 
+def argn(call, name, pos, default=None):
+    """Argument ``name`` of a call: keyword, or positional at index ``pos`` (the loader turns keywords of resolvable
+    callees into positionals, so rules must accept both spellings)."""
+    for k in call.keywords:
+        if k.arg == name:
+            return k.value
+    if pos is not None and len(call.args) > pos and not any(isinstance(a, ast.Starred) for a in call.args[:pos + 1]):
+        return call.args[pos]
+    return default
+
+
 def is_const(expr, value):
     return isinstance(expr, ast.Constant) and expr.value == value and type(expr.value) is type(value)
 
